@@ -1,0 +1,75 @@
+//! Verification hooks needing access to `inner_op` internals.
+//! Compiled only with the cargo feature `verif-hooks`.
+
+use super::*;
+
+pub(crate) fn builtin_operators() -> Vec<(&'static str, Vec<OpParameter>)> {
+    let mut all = Vec::new();
+    for (name, _) in BUILTIN_OPERATORS {
+        let gamut: Vec<OpParameter> = match name {
+            "adapt" => adapt::GAMUT.to_vec(),
+            "addone" => addone::GAMUT.to_vec(),
+            "axisswap" => axisswap::GAMUT.to_vec(),
+            "btmerc" => btmerc::GAMUT.to_vec(),
+            "butm" => btmerc::UTM_GAMUT.to_vec(),
+            "cart" => cart::GAMUT.to_vec(),
+            "curvature" => curvature::GAMUT.to_vec(),
+            "deflection" => deflection::GAMUT.to_vec(),
+            "deformation" => deformation::GAMUT.to_vec(),
+            "dm" | "dms" => iso6709::GAMUT.to_vec(),
+            "geodesic" => geodesic::GAMUT.to_vec(),
+            "gravity" => gravity::GAMUT.to_vec(),
+            "gridshift" => gridshift::GAMUT.to_vec(),
+            "helmert" => helmert::GAMUT.to_vec(),
+            "laea" => laea::GAMUT.to_vec(),
+            "latitude" => latitude::GAMUT.to_vec(),
+            "lcc" => lcc::GAMUT.to_vec(),
+            "merc" => merc::GAMUT.to_vec(),
+            "webmerc" => webmerc::GAMUT.to_vec(),
+            "molodensky" => molodensky::GAMUT.to_vec(),
+            "omerc" => omerc::GAMUT.to_vec(),
+            "permtide" => permtide::GAMUT.to_vec(),
+            "somerc" => somerc::GAMUT.to_vec(),
+            "tmerc" => tmerc::GAMUT.to_vec(),
+            "unitconvert" => unitconvert::GAMUT.to_vec(),
+            "utm" => tmerc::UTM_GAMUT.to_vec(),
+            "pipeline" => pipeline::GAMUT.to_vec(),
+            "pop" | "push" => pushpop::PUSH_POP_GAMUT.to_vec(),
+            "stack" => stack::STACK_GAMUT.to_vec(),
+            "noop" | "longlat" | "latlon" | "latlong" | "lonlat" => noop::GAMUT.to_vec(),
+            _ => Vec::new(),
+        };
+        all.push((name, gamut));
+    }
+    all
+}
+
+#[allow(clippy::type_complexity)]
+pub(crate) fn unit_tables() -> (Vec<(&'static str, f64)>, Vec<(&'static str, f64)>) {
+    let linear = units::LINEAR_UNITS
+        .iter()
+        .map(|u| (u.name(), u.multiplier()))
+        .collect();
+    let angular = units::ANGULAR_UNITS
+        .iter()
+        .map(|u| (u.name(), u.multiplier()))
+        .collect();
+    (linear, angular)
+}
+
+pub(crate) fn stack_step(
+    definition: &str,
+    direction: Direction,
+    stack: &mut Vec<Vec<f64>>,
+    operands: &mut dyn CoordinateSet,
+) -> Result<usize, Error> {
+    let ctx = Minimal::default();
+    let op = Op::new(definition, &ctx)?;
+    if op.params.name != "stack" {
+        return Err(Error::Unsupported(definition.to_string()));
+    }
+    Ok(match direction {
+        Direction::Fwd => stack::stack_fwd(stack, operands, &op.params),
+        Direction::Inv => stack::stack_inv(stack, operands, &op.params),
+    })
+}
